@@ -638,7 +638,7 @@ pub fn split_signature(hs: HashSpec, sig: &[u8], h2_known: bool) -> Result<Vec<L
 }
 
 /// Length of an HSS signature by the RFC formulas.
-pub fn sig_len(n: usize, params: &Params) -> usize {
+pub fn sig_len(n: usize, params: &[(u32, u32)]) -> usize {
     let mut len = 4;
     for (k, &(w, h)) in params.iter().enumerate() {
         let p = ots_params(n, w).3;
